@@ -610,7 +610,90 @@ def rule_f(ctx, out):
         raise AnalysisError(f"opcode_rep_with_int: only {n} numbering facts found")
 
 
+PO = "smt_encoding.complete_encoding.synthesis_pre_order"
+AC = "smt_encoding.complete_encoding.synthesis_additional_constraints"
+IV = "smt_encoding.complete_encoding.synthesis_initialize_variables"
+
+
+def rule_g(ctx, out):
+    """What each order / multiplicity constraint generator emits means what it is documented to mean.  The generators are
+    interpreted on a three-position instance with instruction codes a, b, n under two bound configurations; the conjunction of
+    the emitted formulas is compared with the intended meaning under every assignment of codes to positions (and of positions to
+    the l-variables).  Exhaustive on the instance, bounded in size (sa/core/encrules.py)."""
+    import itertools
+    from ..core import encrules as er
+    from ..core.minieval import Unsupported, Raised
+    mi = er.make_interp(ctx)
+    sf = er.SF()
+    POS = [0, 1, 2]
+    CODES = ["a", "b", "n"]
+    configs = {"equal bounds": er.Bounds({c: 0 for c in CODES}, {c: 2 for c in CODES}, 0, 2),
+               "staggered bounds": er.Bounds({"a": 0, "b": 1, "n": 0}, {"a": 1, "b": 2, "n": 2}, 0, 2)}
+
+    def run(qual, *args):
+        try:
+            r = mi.call(ctx.func(qual), *args)
+        except (Unsupported,) as e:
+            raise AnalysisError(f"{qual}: cannot evaluate abstractly: {e}")
+        return [r] if isinstance(r, er.Hard) or r is None else list(r)
+
+    def compare(name, cfgname, formulas, meaning, with_l=False):
+        n = 0
+        for tasg in er.t_assignments(POS, CODES):
+            lasgs = [dict(zip(("l_a", "l_b"), v)) for v in itertools.product(POS, repeat=2)] if with_l else [{}]
+            for lasg in lasgs:
+                asg = dict(tasg, **lasg)
+                n += 1
+                try:
+                    got = er.conj(formulas, asg)
+                except KeyError as ke:
+                    out.bad(f"constraint-meaning:{name}:mentions-position-outside-the-sequence", f"{name} ({cfgname}): an emitted constraint mentions {ke.args[0]}, "
+                            f"which is not a position / variable of the instance (positions {POS})", where(ctx.func(name_qual[name])))
+                    return n
+                want = meaning(asg)
+                if got != want:
+                    out.bad(f"constraint-meaning:{name}:{'admits-more' if got else 'excludes-more'}",
+                            f"{name} ({cfgname}): the emitted constraints are {got} and their meaning is {want} for the sequence "
+                            f"{[asg[f't_{j}'] for j in POS]}" + (f" with l = {lasg}" if lasg else ""), where(ctx.func(name_qual[name])),
+                            {"formulas": [repr(getattr(f_, 'formula', f_)) for f_ in formulas][:8]})
+                    return n
+        out.ok({"generator": name, "bounds": cfgname, "assignments_compared": n})
+        return n
+
+    name_qual = {"l-variable link and order": f"{PO}.l_conflicting_constraints_from_theta_values", "happens_before_direct": f"{PO}.happens_before_direct",
+                 "sto_ld_dependency": f"{PO}.sto_ld_dependency", "ld_sto_dependency": f"{PO}.ld_sto_dependency", "fromnop_encoding": f"{AC}.fromnop_encoding",
+                 "each_instruction_is_used_at_least_once": f"{AC}.each_instruction_is_used_at_least_once",
+                 "each_function_is_used_at_most_once": f"{AC}.each_function_is_used_at_most_once", "restrict_t_domain": f"{IV}.restrict_t_domain"}
+    total = 0
+    for cfgname, b in configs.items():
+        lb, ub = b.lb, b.ub
+        t = lambda asg, j: asg[f"t_{j}"]
+        # l-variables: domain, link with t (both directions), order a before b
+        fs = run(name_qual["l-variable link and order"], ["a", "b"], b, {"b": {"a"}, "a": set()}, sf)
+        total += compare("l-variable link and order", cfgname, fs, lambda asg: all(
+            lb[c] <= asg[f"l_{c}"] <= ub[c] and all((t(asg, j) == c) == (asg[f"l_{c}"] == j) for j in range(lb[c], ub[c] + 1)) for c in ("a", "b"))
+            and asg["l_a"] < asg["l_b"], with_l=True)
+        fs = [f_ for j in POS for f_ in run(name_qual["happens_before_direct"], j, sf, b, "a", "b")]
+        total += compare("happens_before_direct", cfgname, fs, lambda asg: all(t(asg, j) != "b" or any(t(asg, i) == "a" for i in range(lb["a"], j)) for j in POS))
+        fs = [f_ for j in POS for f_ in run(name_qual["sto_ld_dependency"], j, sf, b, "a", "b")]
+        total += compare("sto_ld_dependency", cfgname, fs, lambda asg: all(t(asg, j) != "a" or all(t(asg, i) != "b" for i in range(lb["b"], j)) for j in POS))
+        fs = [f_ for j in POS for f_ in run(name_qual["ld_sto_dependency"], j, sf, b, "a", "b")]
+        total += compare("ld_sto_dependency", cfgname, fs, lambda asg: all(t(asg, j) != "b" or all(t(asg, i) != "a" for i in range(j + 1, ub["a"] + 1)) for j in POS))
+        fs = run(name_qual["fromnop_encoding"], sf, b, "n")
+        total += compare("fromnop_encoding", cfgname, fs, lambda asg: all(t(asg, j) != "n" or t(asg, j + 1) == "n" for j in range(lb["n"], ub["n"])))
+        fs = run(name_qual["each_instruction_is_used_at_least_once"], sf, b, ["a", "b"])
+        total += compare("each_instruction_is_used_at_least_once", cfgname, fs, lambda asg: all(any(t(asg, j) == c for j in range(lb[c], ub[c] + 1)) for c in ("a", "b")))
+        fs = run(name_qual["each_function_is_used_at_most_once"], sf, b, "a")
+        total += compare("each_function_is_used_at_most_once", cfgname, fs, lambda asg: sum(1 for j in range(lb["a"], ub["a"] + 1) if t(asg, j) == "a") <= 1)
+        fs = run(name_qual["restrict_t_domain"], sf, b, CODES)
+        total += compare("restrict_t_domain", cfgname, fs, lambda asg: all(lb[t(asg, j)] <= j <= ub[t(asg, j)] for j in POS))
+    out.samples.append({"assignments_compared": total})
+    if total < 800:
+        raise AnalysisError(f"only {total} assignments compared")
+
+
 RULES = [
+    ("C06.g", "order and multiplicity constraints mean what they are documented to mean", 14, rule_g),
     ("C06.f", "integer codes of stack terms are dense; `empty` gets a fresh code", 4, rule_f),
     ("C06.e", "position families cover every admissible position", 15, rule_e),
     ("C06.d", "happens-before map under-approximates the dependency graph", 7, rule_d),
